@@ -1,4 +1,167 @@
+/-
+  Props/C12.lean — timed-out calls are never transmitted afterwards; sent ones are discarded.
+
+  One lemma per hop of the request path, on the component models, for every state / history:
+  the front end (expired at dispatch → nothing goes below the timeout sink; the deadline event
+  is raised when the timer fires) and the multiplexed transport (a request whose deadline event
+  has fired is dropped by the send loop; one that was already written gets a Tdiscarded naming
+  its tag).  The serial transport, pool and balancer-gate hops are stated on their own models
+  (Props of C08 / C07 / C05); the assembled stacks are judged by the monitor `E2E.comp 12`.
+-/
 import ScalesModel.Adapter.E2E
-namespace Scales.E2E
-theorem C12_placeholder : True := trivial
-end Scales.E2E
+import ScalesModel.Adapter.TagPool
+import ScalesModel.Adapter.FrontEnd
+namespace Scales.C12
+
+open Scales.TagPool in
+/-- Send-queue hop: the send loop never writes a request whose deadline event has fired. -/
+theorem C12_mux_drop_before_send (s : St) (t rid : Nat) (f : Frame)
+    (hf : f ∈ (stepSend s).2.wrote) (hk : f.kind = .req) (harg : f.arg = rid) (_ht : f.tag = t) :
+    ∃ r, s.reqs[rid]? = some r ∧ r.ev ≠ .fired := by
+  unfold stepSend at hf
+  split at hf
+  · simp at hf
+  · simp at hf; subst hf; cases hk
+  · simp at hf; subst hf; cases hk
+  · rename_i rid' t' q
+    simp only at hf
+    split at hf
+    · simp at hf
+    · rename_i r hr
+      split at hf
+      · simp at hf
+      · split at hf
+        · split at hf <;> simp at hf
+        · simp at hf; subst hf
+          simp only at harg; subst harg
+          exact ⟨r, hr, by simp_all⟩
+        · simp at hf; subst hf
+          simp only at harg; subst harg
+          exact ⟨r, hr, by simp_all⟩
+
+open Scales.TagPool in
+/-- a step touches the request table only by appending or by rewriting the key / subscription
+    flag of one entry, or by raising an entry's event -/
+def SameEv (l l' : List Req) : Prop :=
+  ∀ (rid : Nat) (r : Req), l[rid]? = some r → r.ev = Ev.fired → ∃ r' : Req, l'[rid]? = some r' ∧ r'.ev = Ev.fired
+
+open Scales.TagPool in
+theorem SameEv.refl (l : List Req) : SameEv l l := fun _ r h1 h2 => ⟨r, h1, h2⟩
+
+open Scales.TagPool in
+theorem SameEv.set (l : List Req) (j : Nat) (r0 n : Req) (h0 : l[j]? = some r0)
+    (hn : r0.ev = .fired → n.ev = .fired) : SameEv l (l.set j n) := by
+  intro rid r hr hf
+  have hlt : rid < l.length := (List.getElem?_eq_some_iff.mp hr).1
+  by_cases h : j = rid
+  · subst h
+    rw [hr] at h0; cases h0
+    exact ⟨n, by simp [List.getElem?_set, hlt], hn hf⟩
+  · exact ⟨r, by simp [List.getElem?_set, h, hr], hf⟩
+
+open Scales.TagPool in
+theorem SameEv.append (l x : List Req) : SameEv l (l ++ x) := by
+  intro rid r hr hf
+  have hlt : rid < l.length := (List.getElem?_eq_some_iff.mp hr).1
+  exact ⟨r, by simp [List.getElem?_append_left hlt, hr], hf⟩
+
+open Scales.TagPool in
+theorem sameEv_send (s : St) : SameEv s.reqs (stepSend s).1.reqs := by
+  unfold stepSend
+  split
+  · exact SameEv.refl _
+  · exact SameEv.refl _
+  · exact SameEv.refl _
+  · simp only
+    split
+    · exact SameEv.refl _
+    · rename_i r hr
+      split
+      · exact SameEv.refl _
+      · split
+        · split
+          · simp only [releaseTag]
+            split <;> exact SameEv.set _ _ r _ hr (fun h => h)
+          · exact SameEv.set _ _ r _ hr (fun h => h)
+        · exact SameEv.set _ _ r _ hr (fun h => h)
+        · exact SameEv.refl _
+
+open Scales.TagPool in
+theorem sameEv_process (s : St) (mt : Int) (t : Nat) : SameEv s.reqs (stepProcess s mt t).1.reqs := by
+  unfold stepProcess
+  split
+  · exact SameEv.refl _
+  · split
+    · cases hl : tmLookup t s.tagmap with
+      | none => simp only [releaseTag, hl]; exact SameEv.refl _
+      | some rid =>
+        simp only [releaseTag, hl, setKey]
+        split
+        · rename_i r0 hr0
+          exact SameEv.set _ _ r0 _ hr0 (fun h => h)
+        · exact SameEv.refl _
+    · exact SameEv.refl _
+
+open Scales.TagPool in
+/-- the deadline event of a request stays fired (until the connection is replaced) -/
+theorem C12_mux_fired_stays (max : Nat) (s : St) (op : Op) (rid : Nat) (r : Req)
+    (hop : op ≠ .reopen) (hr : s.reqs[rid]? = some r) (hfired : r.ev = .fired) :
+    ∃ r', (stepOp max s op).1.reqs[rid]? = some r' ∧ r'.ev = .fired := by
+  have key : SameEv s.reqs (stepOp max s op).1.reqs := by
+    cases op with
+    | reopen => exact absurd rfl hop
+    | ping => exact SameEv.refl _
+    | req e popped =>
+      simp only [stepOp, stepReq]
+      split
+      · exact SameEv.append _ _
+      · exact SameEv.refl _
+      · exact SameEv.append _ _
+    | fire rid' =>
+      simp only [stepOp, stepFire]
+      split
+      · rename_i r0 hr0
+        split
+        · exact SameEv.set _ _ r0 _ hr0 (fun _ => rfl)
+        · exact SameEv.refl _
+      · exact SameEv.refl _
+    | notify rid' =>
+      simp only [stepOp, stepNotify]
+      split
+      · rename_i r0 hr0
+        split
+        · split <;> exact SameEv.set _ _ r0 _ hr0 (fun h => h)
+        · exact SameEv.refl _
+      · exact SameEv.refl _
+    | send => exact sameEv_send s
+    | process mt t => exact sameEv_process s mt t
+  exact key rid r hr hfired
+
+open Scales.TagPool in
+/-- On-the-wire hop: when the timeout notification of a request that was written (its tag is
+    still in its properties) runs, a Tdiscarded naming exactly that tag is queued, and the send
+    loop writes a queued Tdiscarded unconditionally. -/
+theorem C12_mux_discard_after_send (s : St) (rid t : Nat) (r : Req)
+    (hr : s.reqs[rid]? = some r) (hfired : r.ev = .fired) (hsub : r.sub = true) (hkey : r.key = .tag t) :
+    (stepNotify s rid).1.sendq = s.sendq ++ [.discard t] ∧
+    ∀ q (s' : St), s'.sendq = .discard t :: q → (stepSend s').2.wrote = [⟨.discard, 0, t⟩] := by
+  constructor
+  · simp [stepNotify, hr, hfired, hsub, hkey]
+  · intro q s' hq
+    simp [stepSend, hq]
+
+open Scales.FrontEnd in
+/-- Dispatch hop: a call whose deadline has passed when it is dispatched gets TimeoutError at
+    once and its request is never handed to the sink below the timeout sink. -/
+theorem C12_frontend_refuses_expired (cl : Call) (now : Nat) (hp : cl.phase = .waitOpen)
+    (hT : cl.T ≠ 0) (hd : cl.issueT + cl.T < now) (hl : cl.lowerGot = false) :
+    (cl.dispatch now).lowerGot = false ∧ (cl.dispatch now).sets = cl.sets ++ [(now, .timeout)] := by
+  simp [Call.dispatch, hp, hT, hd, hl]
+
+open Scales.FrontEnd in
+/-- the timer action raises the call's deadline event before anything else, so every hop
+    below that looks at the event afterwards sees it set -/
+theorem C12_frontend_timer_raises_event (cl : Call) (now : Nat) : (cl.fire now).evtSet = true := by
+  unfold Call.fire; split <;> rfl
+
+end Scales.C12
